@@ -256,16 +256,139 @@ theorem transition_ops_inside (S : Ino → Prop) (fs : FS) (hc : Closed S fs) (h
       · exact hw.2 a ha
       · exact hw.1 parent leaf rfl
 
+/-! ## SetPermissions -/
+
+/-- `Directory.SetPermissions(name, …)` changes the mode of the inode bound to the
+validated single name in the directory itself, and that inode is not a symbolic
+link: it never follows a link, whatever the filesystem looks like at that moment. -/
+theorem set_permissions_inside (S : Ino → Prop) (fs : FS) (hc : Closed S fs) (h : Ino) (name : Name) (c : Ino)
+    (hS : S h) (ho : setPermAt fs h name = .ok c) :
+    S c ∧ validName name = true ∧ fs.entry h name = some c ∧ ∀ t, fs.get c ≠ some (.symlink t) := by
+  unfold setPermAt at ho
+  by_cases hv : (!validName name) = true
+  · rw [if_pos hv] at ho; cases ho
+  · rw [if_neg hv] at ho
+    simp at hv
+    cases he : fs.entry h name with
+    | none => rw [he] at ho; cases ho
+    | some c' =>
+      rw [he] at ho
+      simp only at ho
+      cases hg : fs.get c' with
+      | none => rw [hg] at ho; cases ho
+      | some node =>
+        rw [hg] at ho
+        cases node with
+        | symlink t => cases ho
+        | dir p es => cases ho; exact ⟨hc h name _ hS he, hv, rfl, by intro t; rw [hg]; simp⟩
+        | file content => cases ho; exact ⟨hc h name _ hS he, hv, rfl, by intro t; rw [hg]; simp⟩
+
+/-- An entry that has been replaced by a symbolic link is refused. -/
+theorem set_permissions_refuses_links (fs : FS) (h : Ino) (name : Name) (c : Ino) (t : String)
+    (he : fs.entry h name = some c) (hl : fs.get c = some (.symlink t)) : ∀ r, setPermAt fs h name ≠ .ok r := by
+  intro r ho
+  unfold setPermAt at ho
+  by_cases hv : (!validName name) = true
+  · rw [if_pos hv] at ho; cases ho
+  · rw [if_neg hv, he] at ho
+    simp only [hl] at ho
+    cases ho
+
+/-- The windows between create / validate and SetPermissions (`createDirectory`:
+mkdir then chmod; `swapFile` with an executability-only change: validate then
+chmod): whatever the filesystem has become in between (`fs'`, closed under
+directory entries like every state), the inode whose mode changes lies in the
+region — in particular it is never the target of a link the entry was swapped
+for — and every handle used lies in the region. -/
+theorem permission_races_inside (S : Ino → Prop) (fs fs' : FS) (hc : Closed S fs) (hc' : Closed S fs') (hroot : S fs.root)
+    (path : String) :
+    (∀ c, (createDirRace fs fs' path).1 = some (.ok c) → S c) ∧ (∀ a ∈ (createDirRace fs fs' path).2, S a.handle) ∧
+    (∀ c, (chmodFileRace fs fs' path).1 = some (.ok c) → S c) ∧ (∀ a ∈ (chmodFileRace fs fs' path).2, S a.handle) := by
+  refine ⟨?_, ?_, ?_, ?_⟩
+  · intro c h
+    unfold createDirRace at h
+    cases hcr : createAt fs path with
+    | mk ok log =>
+      rw [hcr] at h
+      cases ok with
+      | false => cases h
+      | true =>
+        simp only at h
+        have hw := walkToParent_inside S fs hc hroot path false
+        cases hwp : walkToParent fs path false with
+        | mk r log' =>
+          rw [hwp] at h hw
+          cases r with
+          | error e => cases h
+          | ok pl =>
+            obtain ⟨parent, leaf⟩ := pl
+            simp only at h
+            exact (set_permissions_inside S fs' hc' parent leaf c (hw.1 parent leaf rfl) (Option.some.inj h)).1
+  · intro a ha
+    unfold createDirRace at ha
+    have hlog := (transition_ops_inside S fs hc hroot path).1
+    cases hcr : createAt fs path with
+    | mk ok log =>
+      rw [hcr] at ha hlog
+      cases ok with
+      | false => exact hlog a ha
+      | true =>
+        simp only at ha
+        cases hwp : walkToParent fs path false with
+        | mk r log' =>
+          rw [hwp] at ha
+          cases r with
+          | error e => exact hlog a ha
+          | ok pl => exact hlog a ha
+  · intro c h
+    unfold chmodFileRace at h
+    have hw := walkToParent_inside S fs hc hroot path true
+    cases hwp : walkToParent fs path true with
+    | mk r log' =>
+      rw [hwp] at h hw
+      cases r with
+      | error e => cases h
+      | ok pl =>
+        obtain ⟨parent, leaf⟩ := pl
+        simp only at h
+        by_cases hcond : (validName leaf && isFileAt fs parent leaf) = true
+        · rw [if_pos hcond] at h
+          exact (set_permissions_inside S fs' hc' parent leaf c (hw.1 parent leaf rfl) (Option.some.inj h)).1
+        · rw [if_neg hcond] at h
+          cases h
+  · intro a ha
+    unfold chmodFileRace at ha
+    have hw := walkToParent_inside S fs hc hroot path true
+    cases hwp : walkToParent fs path true with
+    | mk r log' =>
+      rw [hwp] at ha hw
+      cases r with
+      | error e => exact hw.2 a ha
+      | ok pl =>
+        obtain ⟨parent, leaf⟩ := pl
+        simp only at ha
+        have hin : ∀ a ∈ log' ++ [{ handle := parent, name := leaf }], S a.handle := by
+          intro a ha'
+          simp only [List.mem_append, List.mem_singleton] at ha'
+          rcases ha' with ha' | rfl
+          · exact hw.2 a ha'
+          · exact hw.1 parent leaf rfl
+        by_cases hcond : (validName leaf && isFileAt fs parent leaf) = true
+        · rw [if_pos hcond] at ha; exact hin a ha
+        · rw [if_neg hcond] at ha; exact hin a ha
+
 /-! ## Any program over the primitives (scan, staging, …) -/
 
 /-- A command names a previously obtained handle by its index. -/
 inductive Cmd
   | openDir (handle : Nat) (name : Name)
   | openFile (handle : Nat) (name : Name)
+  | setPerm (handle : Nat) (name : Name)
 
 /-- Runs commands, each against its own (adversarially chosen) filesystem
 state; the handle table starts with the handles given and grows by the
-directories opened. Returns the final table and the files opened. -/
+directories opened. Returns the final table and the inodes operated on (files
+opened, entries whose permissions were set). -/
 def runCmds : List (FS × Cmd) → List Ino → List Ino → List Ino × List Ino
   | [], hs, files => (hs, files)
   | (fs, .openDir i name) :: rest, hs, files =>
@@ -282,11 +405,18 @@ def runCmds : List (FS × Cmd) → List Ino → List Ino → List Ino × List In
       match openAt fs h name false with
       | .ok f => runCmds rest hs (files ++ [f])
       | .error _ => runCmds rest hs files
+  | (fs, .setPerm i name) :: rest, hs, files =>
+    match hs[i]? with
+    | none => runCmds rest hs files
+    | some h =>
+      match setPermAt fs h name with
+      | .ok c => runCmds rest hs (files ++ [c])
+      | .error _ => runCmds rest hs files
 
 /-- `handles_inside_root`, in general: *any* program that obtains handles only
 by opening names relative to handles it already holds — scanning, staging,
-transmitting, transitioning are such programs — keeps all its handles and all
-the files it opens inside the region, under every interleaving with an
+transmitting, transitioning are such programs — keeps all its handles, all the
+files it opens and every entry whose permissions it sets inside the region, under every interleaving with an
 adversary that keeps the region closed under directory entries. -/
 theorem any_program_inside (S : Ino → Prop) :
     ∀ (prog : List (FS × Cmd)) (hs files : List Ino), (∀ s ∈ prog, Closed S s.1) →
@@ -333,6 +463,22 @@ theorem any_program_inside (S : Ino → Prop) :
           rcases hx with hx | rfl
           · exact h2 x hx
           · exact openAt_inside S fs hc h name false x (h1 h (mem_of_getElem? hi)) ho
+    | setPerm i name =>
+      simp only [runCmds]
+      cases hi : hs[i]? with
+      | none => exact ih hs files hrest h1 h2
+      | some h =>
+        simp only
+        cases ho : setPermAt fs h name with
+        | error e => exact ih hs files hrest h1 h2
+        | ok c =>
+          simp only
+          refine ih hs (files ++ [c]) hrest h1 ?_
+          intro x hx
+          simp only [List.mem_append, List.mem_singleton] at hx
+          rcases hx with hx | rfl
+          · exact h2 x hx
+          · exact (set_permissions_inside S fs hc h name x (h1 h (mem_of_getElem? hi)) ho).1
 
 /-! ## Why the name check matters; non-vacuity -/
 
